@@ -70,8 +70,10 @@ let show_replies (r : rline list) =
 let ip = str_of_raw "127.0.0.1"
 let domain = str_of_raw "inbucket"
 
+(* mailbox message cap of the case (store field "file:2"), 0 = none *)
+let cap_of_case = ref 0
 let show_store (ds : delivery list) : string =
-  let st = store_after [] ds in
+  let st = if !cap_of_case = 0 then store_after [] ds else store_after_cap (nat_of_int !cap_of_case) [] ds in
   let boxes = List.map (fun (name, ms) ->
     (raw_of_str name,
      String.concat "/" (List.map (fun d ->
@@ -144,6 +146,12 @@ let hooked (it : item) : bool =
 
 let handle_smtp (kind : string) (ins : string list) (outs : string list) : bool =
   let f = str_of_field in
+  (match ins with
+   | _ :: _ :: _ :: _ :: _ :: _ :: _ :: _ :: _ :: _ :: store :: _ ->
+       cap_of_case := (match String.index_opt store ':' with
+                       | Some i -> (try int_of_string (String.sub store (i + 1) (String.length store - i - 1)) with _ -> 0)
+                       | None -> 0)
+   | _ -> cap_of_case := 0);
   let go naming maxr maxb da acc rej ds sto dis rejo streams rules =
         let pol = load_cfg (bool_of_field da) (f acc) (f rej) (bool_of_field ds) (f sto) (f dis) (f rejo) in
         let c = { pol = pol; max_rcpt = z_of_int (int_of_string maxr); max_bytes = z_of_int (int_of_string maxb);
